@@ -60,7 +60,7 @@ class SysScript(c15.Script):
       return st
     def step(state, action):
       st = c15.Script.step(self, state, action)
-      st.f['reward'] = st.f['reward'] + uf('sysdep', asarr(e.f['sys'].f['mass']))
+      st.f['reward'] = st.f['reward'] + uf('sysdep', asarr(e.f['sys'].f['mass']), asarr(e.f['sys'].f['gravity']))
       return st
     e.f['reset'] = ('prim', 'reset', reset)
     e.f['step'] = ('prim', 'step', step)
@@ -105,7 +105,7 @@ def batched_equals_solo(U, rep, tier):
         if not dr:
           return c15.Script(I).env(), None
         sysv = Struct('System', {'mass': masses[idx], 'gravity': sym('g')}, home=None)
-        base = Struct('System', {'mass': sym('m0'), 'gravity': sym('g')}, home=None)
+        base = Struct('System', {'mass': sym('m0'), 'gravity': sym('g0')}, home=None)      # overridden uniformly by the randomisation
         S = SysScript(I, base)
         env = S.env()
         in_axes = Struct('System', {'mass': 0, 'gravity': None}, home=None)
@@ -175,7 +175,7 @@ def randomised_inner_stack(U, rep, tier):
 
   def s_step(sysv, state, action):
     st = S.step(state, action)
-    st.f['reward'] = st.f['reward'] + uf('sysdep', asarr(sysv.f['mass']))
+    st.f['reward'] = st.f['reward'] + uf('sysdep', asarr(sysv.f['mass']), asarr(sysv.f['gravity']))
     return st
   I.contracts[(SCRIPT_MOD, 'script_reset')] = s_reset
   I.contracts[(SCRIPT_MOD, 'script_step')] = s_step
@@ -189,7 +189,9 @@ def randomised_inner_stack(U, rep, tier):
   def stack(sysv):
     bare = I.apply(Env, [sysv], {})
     return c15.mk(I, 'EpisodeWrapper', bare, Li, 2)       # an inner wrapper that changes behaviour (action repeat 2)
-  base = Struct('System', {'mass': sym('m0'), 'gravity': g}, home=None)
+  # the randomisation function batches `mass` AND overrides `gravity` uniformly (in_axes None): the base env's own value
+  # (g0) must not survive
+  base = Struct('System', {'mass': sym('m0'), 'gravity': sym('g0')}, home=None)
   sysv = Struct('System', {'mass': masses, 'gravity': g}, home=None)
   in_axes = Struct('System', {'mass': 0, 'gravity': None}, home=None)
   rand = ('prim', 'randomize', lambda s_: (sysv, in_axes))
